@@ -50,6 +50,11 @@ impl<T> Receiver<T> {
         }
     }
 
+    #[cfg(crux_verif)]
+    pub(crate) fn verif_len(&self) -> usize {
+        self.inner.len()
+    }
+
     pub fn drain(&self) -> Drain<T> {
         Drain { receiver: self }
     }
